@@ -148,6 +148,19 @@ func (f *FnEnc) callAbstract(x ssa.Value, key string, args []Val, argVs []ssa.Va
 	f.trustedUsed[key] = true
 	res := f.applyContract(ct, key, env, results, nil)
 	f.setResults(x, res, results)
+	// crash points: the state right after an external call is what survives a crash there
+	if f.c != nil {
+		for _, cl := range f.c.AfterCall {
+			tags := cl.Tags
+			if len(tags) == 0 {
+				tags = f.c.Tags
+			}
+			if !f.wantTags(tags) {
+				continue
+			}
+			f.obligeNoAssume("crash", cl.Label+"@"+key, tags, f.evalClause(cl.Expr, f.baseEnv(f.st)), cl.Src)
+		}
+	}
 }
 
 // applyContract: assert requires, havoc modifies, assume ensures. env maps formal names to actuals.
@@ -214,7 +227,7 @@ func (f *FnEnc) applyContract(ct *Contract, name string, env map[string]string, 
 			f.assume(fmt.Sprintf("(>= %s %s)", post.comps["W"], pre.comps["W"]))
 		}
 		for _, n := range mods {
-			if post.comps[n] != pre.comps[n] {
+			if post.comps[n] != pre.comps[n] && f.relevant[n] {
 				if wf := f.heapWF(n, post.comps[n], post.comps["W"]); wf != "" {
 					f.assume(wf)
 				}
@@ -269,8 +282,9 @@ func (f *FnEnc) applyContract(ct *Contract, name string, env map[string]string, 
 			for k, v := range envPost {
 				chk[k] = v
 			}
-			if len(f.e.unresolved(en.Expr, chk)) > 0 {
+			if un := f.e.unresolved(en.Expr, chk); len(un) > 0 {
 				// the clause speaks about the callee's own locals: not usable at a call site
+				f.e.noteOnce(fmt.Sprintf("note: ensures %s of %s is not used at call sites (names %v are not visible there)", en.Label, name, un))
 				continue
 			}
 		}
@@ -575,7 +589,10 @@ func (f *FnEnc) callModComps(c *ssa.CallCommon, comps map[string]bool, cells map
 		switch b.Name() {
 		case "append":
 			if st, ok := c.Args[0].Type().Underlying().(*types.Slice); ok && !isByte(st.Elem()) {
-				comps[f.e.reg.arrComp(st.Elem())] = true
+				ac := f.e.reg.arrComp(st.Elem())
+				comps[ac] = true
+				delete(f.lastFreshMods, ac)
+				f.lastFullMods[ac] = true
 				comps["W"] = true
 			}
 		}
@@ -600,7 +617,16 @@ func (f *FnEnc) callModComps(c *ssa.CallCommon, comps map[string]bool, cells map
 		all()
 		return
 	}
-	for _, n := range f.e.compsMatching(ct.Modifies) {
+	mods, freshOnly := f.e.modSpec(ct.Modifies)
+	for _, n := range mods {
+		if freshOnly[n] && !f.lastFullMods[n] {
+			if !comps[n] {
+				f.lastFreshMods[n] = true
+			}
+		} else {
+			delete(f.lastFreshMods, n)
+			f.lastFullMods[n] = true
+		}
 		comps[n] = true
 	}
 }
